@@ -369,7 +369,7 @@ PROPS["C11"] = dict(
 	level_note="Assumes the C05 layout of the code map (checked separately per fragment kind); parsed documents cannot be produced inside a harness. Fragment lookup (get_fragment / traverse / volume) and the TryFromJson conversions on heap shapes are covered only as far as the thorough tier completes; BTreeMap conversion is outside.",
 	functions=["Value::get_fragment", "get_array_fragment", "Entry::get_fragment", "<[Value] as JsonArray>::iter_mapped", "array::IterMapped::next", "Object::{iter_mapped,get_mapped,get_mapped_entries_with_index,get_unique_mapped,get_unique_mapped_entry}", "object::IterMapped::next", "MappedEntries*/MappedValues*::next"],
 	bounds="arrays: <= 3 children, child volumes 1..=3, container offset <= 2, code map of 16 entries; objects: patterns '', 'a', 'aa' (one key, up to two entries); fragment lookup: <= 4 leaf items on the stack",
-	outside=["mapped lookups on objects with two distinct keys or three entries (CBMC out of memory)", "the TryFromJson conversions other than Vec<bool> / Vec<Vec<bool>> / BTreeMap<String, bool> (Option, Box, numbers, strings, keys whose FromStr can fail): not encoded", "Value::count with a caller-supplied predicate (volume is its instance that is checked)", "fragment lookup / traversal on values nested deeper than 3 or wider than 3", "empty objects as leaves of fragment lookup"],
+	outside=["mapped lookups on objects with two distinct keys or three entries (CBMC out of memory)", "the TryFromJson conversions other than Vec<bool> / Vec<Vec<bool>> / BTreeMap<String, bool> (Option, Box, numbers, strings, keys whose FromStr can fail): not encoded", "Value::count with a caller-supplied predicate (volume is its instance that is checked)", "fragment lookup / traversal on values nested deeper than 3 or wider than 3"],
 	stubs=[STUB_GROW], assumptions=["code map laid out as specified by C05: array child i at base+1+sum of earlier volumes; object entry i at base+1+sum of (2+value volume), key at +1, value at +2"],
 	harnesses=C11H + C11F,
 )
@@ -564,8 +564,8 @@ def FRAGS(tier, level, cap):
 
 
 PROPS["C11"]["harnesses"] = PROPS["C11"]["harnesses"] + [MAPPED("quick", 3, 900), MAPPED("thorough", 4, 3600), CONVERT("quick", 2, 600), CONVERT("thorough", 3, 1800), FRAGS("quick", 1, 600), FRAGS("thorough", 2, 2400)]
-PROPS["C11"]["functions"] = PROPS["C11"]["functions"] + ["Object::get_mapped_entries / get_mapped / iter_mapped and the MappedEntries / MappedValues / object::IterMapped iterators' next and their closures (from MIR)",
+PROPS["C11"]["functions"] = PROPS["C11"]["functions"] + ["Object::get_mapped_entries / get_mapped / their _with_index variants / the four get_unique_mapped* lookups / iter_mapped and the MappedEntries / MappedValues / MappedEntriesWithIndex / MappedValuesWithIndex / object::IterMapped iterators' next and their closures (from MIR)",
 	"Value::get_fragment, get_array_fragment, Object::get_fragment, Entry::get_fragment, Value::traverse, Traverse::next, FragmentRef::sub_fragments, SubFragments::next_back and its closure, Value::volume and its closure, FragmentRef::is_value (from MIR)",
 	"<BTreeMap<K, V> as TryFromJson>::try_from_json_at and its closure, Object::iter_mapped, object::IterMapped::next (from MIR; BTreeMap::new/insert, str::parse::<String>, Result::map_err, Try::branch, FromResidual are models of their contracts)", "<Vec<T> as TryFromJson>::try_from_json_at and its closure, <bool as TryFromJson>::try_from_json_at, <Vec<Value> as JsonArray>::iter_mapped, array::IterMapped::next and its closure, Value::kind, Mapped::new (from MIR)"]
 PROPS["C11"]["assumptions"] = PROPS["C11"]["assumptions"] + ["fragment check (MIR): SmallVec new/push/pop/extend(rev), slice iterators, Option::map/or_else/take and Iterator::filter+count are models of their std contracts; fragments are identified by their location in the value; counter-examples and every value of the quick bound are replayed on the real value parsed from text", "conversion check (MIR): std's Iterator::map + collect::<Result<Vec<_>,_>>() is a model of its contract (items in order, first Err returned at once); T::try_from_json_at is dispatched by target type (Vec<bool>, Vec<Vec<bool>>) as monomorphisation does; counter-examples and every value of the quick bound are replayed on the real conversion of a document parsed by the real parser", "mapped-lookup check (MIR): the code map is an uninterpreted volume function; the key index is the bucket-semantics model (C06); counter-examples are replayed on a document parsed by the real parser (every value an array of one item)"]
-PROPS["C11"]["outside"] = [x for x in PROPS["C11"]["outside"] if not x.startswith("mapped lookups on objects with two distinct keys")] + ["the WithIndex and unique variants of the mapped lookups (same macro-generated iterator body as the two that are interpreted)"]
+PROPS["C11"]["outside"] = [x for x in PROPS["C11"]["outside"] if not x.startswith("mapped lookups on objects with two distinct keys")]
